@@ -387,6 +387,31 @@ func c15Attrs(c *Case) {
 	t3 := tname(c, "c")
 	s3 := spec
 	s3.Name, s3.Client, s3.Prefix = t3, "a3", "r"
+	{
+		// first: an explicit write_time set BEFORE the drop must still stamp statements after it
+		tx := tname(c, "x")
+		sx := spec
+		sx.Name, sx.Client, sx.Prefix = tx, "ax", "rx"
+		wt := 7000 + r.Intn(100)
+		conn.SetWriteTime(wt)
+		if err := conn.Create(sx); err == nil {
+			conn.Exec("drop table " + tx)
+			if err := conn.Exec(fmt.Sprintf("insert into %s values (900010, 'x', 'y')", t)); err != nil {
+				fail("drop-table-breaks-connection", "after DROP of another table an INSERT fails: "+err.Error())
+				return
+			}
+			if got, ok := readConn(conn); ok && !strings.HasSuffix(got, "|t:"+tstr(wt)) {
+				fail("write-time-lost-at-drop", "s3db_conn shows "+got+" after DROP of another table; write_time was "+tstr(wt))
+				return
+			}
+			if e := entry(900010); e != nil && e.DeleteTime() != tnanos(wt) {
+				fail("write-time-not-applied-after-drop", fmt.Sprintf("write_time %s was set (and is still shown by s3db_conn); after DROP of another table a statement was stamped %s", tstr(wt), time.Unix(0, e.DeleteTime()).UTC().Format(time.RFC3339)))
+				return
+			}
+			c.Count("write_time_across_drop", 1)
+		}
+		conn.Exec("update s3db_conn set write_time=NULL")
+	}
 	if err := conn.Create(s3); err != nil {
 		fail("create-under-future-deadline", err.Error())
 	} else {
